@@ -388,9 +388,9 @@ pub fn build() -> Property {
         phases: vec![
             Phase { name: "status_enumerated", kind: PhaseKind::Enum { n: (4 * PER_TYPE, 4 * PER_TYPE), exhaustive: (true, true), f: Box::new(enum_case) }, threads: 16 },
             Phase { name: "data_enumerated", kind: PhaseKind::Enum { n: (256 * 29 * 2, 256 * 29 * 2), exhaustive: (true, true), f: Box::new(data_enum_case) }, threads: 16 },
-            Phase { name: "status_random", kind: PhaseKind::Gen { cases: (4000, 80000), tape_len: 64 * 9, f: Box::new(random_case) }, threads: 16 },
-            Phase { name: "data_random", kind: PhaseKind::Gen { cases: (2000, 40000), tape_len: 80, f: Box::new(data_random_case) }, threads: 16 },
-            Phase { name: "status_e2e", kind: PhaseKind::Gen { cases: (20000, 400000), tape_len: 16, f: Box::new(e2e_status_case) }, threads: 16 },
+            Phase { name: "status_random", kind: PhaseKind::Gen { cases: (40000, 800000), tape_len: 64 * 9, f: Box::new(random_case) }, threads: 16 },
+            Phase { name: "data_random", kind: PhaseKind::Gen { cases: (20000, 300000), tape_len: 80, f: Box::new(data_random_case) }, threads: 16 },
+            Phase { name: "status_e2e", kind: PhaseKind::Gen { cases: (200000, 2000000), tape_len: 16, f: Box::new(e2e_status_case) }, threads: 16 },
         ],
     }
 }
